@@ -58,21 +58,24 @@ Put(f, k, v) == [x \in DOMAIN f \cup {k} |-> IF x = k THEN v ELSE f[x]]
 (* ---- send_payment* returned `res` ("ok" | "dup" | "err").                *)
 (* DupRefused: while any HTLC of the id is unresolved a second send is refused. *)
 SSend(node, pid, hash, amt, nparts, fixed, res) ==
+  LET rec == [node |-> node, hash |-> hash, amt |-> amt, nparts |-> nparts, fixed |-> fixed,
+              gen |-> IF pid \in Pids THEN pay[pid].gen + 1 ELSE 1, term |-> "none", fee |-> -1, rep |-> FALSE, dead |-> FALSE, initf |-> 0,
+              \* the id was re-used after all its HTLCs failed but before the user handled the
+              \* PaymentFailed of the earlier use (or a legal repetition of it): `owed` such
+              \* events may still arrive
+              owed |-> IF pid \in Pids
+                       THEN pay[pid].owed + (IF pay[pid].term = "none" \/ (pay[pid].term = "failed" /\ pay[pid].rep) THEN 1 ELSE 0)
+                       ELSE 0,
+              \* the channel named by PaymentPathFailed is compared with the ground truth only while it is
+              \* unambiguous: first use of the id, hash used by no other id, no restart (events of an earlier
+              \* use, of another payment of the same hash, or repetitions cannot be told apart)
+              blame |-> pid \notin Pids /\ hash \notin DOMAIN pidOf]
+      other == IF hash \in DOMAIN pidOf /\ pidOf[hash] # pid /\ pidOf[hash] \in Pids THEN {pidOf[hash]} ELSE {}
+      base == [p \in Pids |-> IF p \in other THEN [pay[p] EXCEPT !.blame = FALSE] ELSE pay[p]]
+  IN
   /\ (res = "ok" /\ pid \in Pids) => ~InFlight(pid)
   /\ pidOf' = IF res = "ok" THEN Put(pidOf, hash, pid) ELSE pidOf
-  /\ IF res = "ok"
-     THEN pay' = Put(pay, pid, [node |-> node, hash |-> hash, amt |-> amt, nparts |-> nparts, fixed |-> fixed,
-                                 gen |-> IF pid \in Pids THEN pay[pid].gen + 1 ELSE 1, term |-> "none", fee |-> -1, rep |-> FALSE, dead |-> FALSE, initf |-> 0,
-                                 \* the id was re-used after all its HTLCs failed but before the user handled the
-                                 \* PaymentFailed of the earlier use (or a legal repetition of it): `owed` such
-                                 \* events may still arrive
-                                 owed |-> IF pid \in Pids
-                                          THEN pay[pid].owed + (IF pay[pid].term = "none" \/ (pay[pid].term = "failed" /\ pay[pid].rep) THEN 1 ELSE 0)
-                                          ELSE 0,
-                                 \* the channel named by PaymentPathFailed is compared with the ground truth only
-                                 \* while events cannot stem from an earlier use of the id or be repetitions
-                                 blame |-> pid \notin Pids])
-     ELSE pay' = pay
+  /\ pay' = IF res = "ok" THEN Put(base, pid, rec) ELSE pay
   /\ UNCHANGED <<ht, released, failSeen, snap, spent, feeKnown, initBal, gotAdd>>
 
 (* ---- an update_add_htlc leaves `node` (retransmissions after a reconnection repeat the key). *)
